@@ -77,8 +77,13 @@ ANCHORS = [
 ]
 
 O_WRITE, O_COMMIT, O_ROLLBACK, O_ISO, O_AUTOC, O_FAILSTMT, O_BEGIN, O_FKWRITE, O_CLOSE, O_DROP, O_INVALIDATE = range(11)
-FAKE_OPS = [O_WRITE, O_COMMIT, O_ROLLBACK, O_ISO, O_AUTOC, O_FAILSTMT, O_BEGIN, O_CLOSE, O_DROP, O_INVALIDATE]
-SQLITE_OPS = [O_WRITE, O_COMMIT, O_ROLLBACK, O_ISO, O_FAILSTMT, O_BEGIN, O_FKWRITE, O_CLOSE, O_DROP, O_INVALIDATE]
+O_OPTS = 11  # [11, level (0 none / 1 non-default / 2 AUTOCOMMIT), logging_token?, another (non-characteristic) option?]
+O_NBEGIN, O_NCOMMIT, O_NROLLBACK, O_NCLOSE = 12, 13, 14, 15  # begin_nested(); commit/rollback/close of the last NestedTransaction
+OPTS_FAKE = [[11, l, t, o] for l in (0, 1, 2) for t in (0, 1) for o in (0, 1) if l or t or o]
+OPTS_SQLITE = [[11, l, t, o] for l in (0, 1) for t in (0, 1) for o in (0, 1) if l or t or o]
+NESTED = [O_NBEGIN, O_NCOMMIT, O_NROLLBACK, O_NCLOSE]
+FAKE_OPS = [O_WRITE, O_COMMIT, O_ROLLBACK, O_ISO, O_AUTOC, O_FAILSTMT, O_BEGIN, O_CLOSE, O_DROP, O_INVALIDATE] + NESTED + [[11, 1, 1, 0], [11, 0, 1, 0], [11, 2, 1, 1]]
+SQLITE_OPS = [O_WRITE, O_COMMIT, O_ROLLBACK, O_ISO, O_FAILSTMT, O_BEGIN, O_FKWRITE, O_CLOSE, O_DROP, O_INVALIDATE] + NESTED + [[11, 1, 1, 0], [11, 0, 1, 0]]
 
 
 def translate(repo, outdir):
@@ -88,12 +93,18 @@ def translate(repo, outdir):
     return []
 
 
-# the former refutation witnesses (fixed by 4102dab) and the example of coq/props/C24.v
+# the former refutation witnesses (fixed by 4102dab) and the examples of coq/props/C24.v
 WITNESSES = [
-    [[0, 0, 0], [[O_WRITE, O_COMMIT, O_CLOSE]], [1]],
-    [[1, 0, 0], [[O_FKWRITE, O_COMMIT, O_CLOSE]], []],
-    [[0, 0, 0], [[O_ISO, O_WRITE, O_CLOSE, O_DROP], [O_AUTOC, O_WRITE, O_BEGIN, O_DROP], [O_WRITE, O_ROLLBACK, O_WRITE]], [1]],
+    [[0, 0, 0, 0], [[O_WRITE, O_COMMIT, O_CLOSE]], [1]],
+    [[1, 0, 0, 0], [[O_FKWRITE, O_COMMIT, O_CLOSE]], []],
+    [[0, 0, 0, 0], [[O_ISO, O_WRITE, O_CLOSE, O_DROP], [O_AUTOC, O_WRITE, O_BEGIN, O_DROP], [O_WRITE, O_ROLLBACK, O_WRITE]], [1]],
+    [[0, 0, 0, 2], [[[11, 0, 1, 0], O_WRITE, O_NBEGIN, O_WRITE, O_CLOSE], [[11, 1, 1, 1], [11, 0, 1, 0]]], []],
+    [[1, 0, 0, 1], [[O_WRITE, O_NBEGIN, O_FKWRITE, O_NROLLBACK, O_NBEGIN, O_WRITE, O_CLOSE]], []],
 ]
+
+
+def _rand_user(rng, ops, n):
+    return [rng.choice(ops) for _ in range(n)]
 
 
 def gen_cases(rng, tier):
@@ -102,22 +113,44 @@ def gen_cases(rng, tier):
     # (a) fake DBAPI: every first-user sequence of <= 2 (thorough: 3) operations x fault scripts x reset style
     maxlen = 3 if thorough else 2
     scripts = [[], [1], [0, 1], [1, 1], [0, 0, 1]] if thorough else [[], [1], [0, 1]]
+    base = [O_WRITE, O_COMMIT, O_ROLLBACK, O_ISO, O_AUTOC, O_FAILSTMT, O_BEGIN, O_CLOSE, O_DROP, O_INVALIDATE]
     for n in range(maxlen + 1):
-        for ops in itertools.product(FAKE_OPS, repeat=n):
+        for ops in itertools.product(base, repeat=n):
             for fl in scripts:
                 for reset in (0, 1, 2):
                     kind = rng.choice([0, 0, 1, 2, 3])
                     second = rng.choice([[], [O_WRITE, O_CLOSE], [O_ISO], [O_COMMIT, O_DROP]])
-                    cases.append({"in": [[0, reset, kind], [list(ops), second], fl], "kind": "fake-exhaustive"})
+                    cases.append({"in": [[0, reset, kind, 0], [list(ops), second], fl], "kind": "fake-exhaustive"})
+    # (a2) characteristics: every sequence of <= 2 option calls (isolation level / logging token / another option
+    #      in ONE call or in sequence), with and without an option engine, ended in every way
+    for ei in (0, 1, 2):
+        for n in (1, 2):
+            for calls in itertools.product(OPTS_FAKE, repeat=n):
+                if not thorough and rng.random() < 0.55:
+                    continue
+                pre = rng.choice([[], [], [O_WRITE], [O_WRITE, O_COMMIT], [O_BEGIN, O_ROLLBACK]])
+                end = rng.choice([[O_CLOSE], [O_DROP], [], [O_WRITE, O_CLOSE], [O_WRITE]])
+                reset = rng.choice([0, 0, 1, 2])
+                cases.append({"in": [[0, reset, rng.choice([0, 0, 2, 3]), ei], [pre + [list(x) for x in calls] + end, rng.choice([[], [O_WRITE]])], []], "kind": "fake-options"})
+    # (a3) savepoints: short sequences over write / begin_nested / nested commit-rollback-close / commit / rollback,
+    #      ended by close(), by dropping the connection or by never returning it
+    sp_ops = [O_WRITE, O_NBEGIN, O_NCOMMIT, O_NROLLBACK, O_NCLOSE, O_COMMIT, O_ROLLBACK]
+    for n in range(1, 5 if thorough else 4):
+        for ops in itertools.product(sp_ops, repeat=n):
+            if O_NBEGIN not in ops or (not thorough and n == 3 and rng.random() < 0.5):
+                continue
+            end = rng.choice([[O_CLOSE], [O_CLOSE], [O_DROP], []])
+            fl = rng.choice([[], [], [1], [0, 1]])
+            cases.append({"in": [[0, rng.choice([0, 0, 1, 2]), rng.choice([0, 0, 2]), 0], [list(ops) + end, [O_WRITE]], fl], "kind": "fake-savepoints"})
     # (b) fake DBAPI: random longer histories
     for _ in range(8000 if thorough else 500):
-        users = [[rng.choice(FAKE_OPS + [O_WRITE, O_COMMIT, O_CLOSE]) for _ in range(rng.randint(0, 6))] for _ in range(rng.randint(1, 4))]
+        users = [_rand_user(rng, FAKE_OPS + [O_WRITE, O_COMMIT, O_CLOSE, O_NBEGIN], rng.randint(0, 7)) for _ in range(rng.randint(1, 4))]
         faults = [rng.choice([0, 0, 0, 1]) for _ in range(rng.randint(0, 8))]
-        cases.append({"in": [[0, rng.choice([0, 0, 1, 2]), rng.choice([0, 0, 1, 2, 3])], users, faults], "kind": "fake-random"})
+        cases.append({"in": [[0, rng.choice([0, 0, 1, 2]), rng.choice([0, 0, 1, 2, 3]), rng.choice([0, 0, 1, 2])], users, faults], "kind": "fake-random"})
     # (c) SQLite
     for _ in range(3000 if thorough else 350):
-        users = [[rng.choice(SQLITE_OPS + [O_WRITE, O_COMMIT, O_CLOSE, O_FKWRITE]) for _ in range(rng.randint(0, 5))] for _ in range(rng.randint(1, 3))]
-        cases.append({"in": [[1, rng.choice([0, 0, 1, 2]), rng.choice([0, 0, 1, 2, 3])], users, []], "kind": "sqlite-random"})
+        users = [_rand_user(rng, SQLITE_OPS + [O_WRITE, O_COMMIT, O_CLOSE, O_FKWRITE, O_NBEGIN], rng.randint(0, 6)) for _ in range(rng.randint(1, 3))]
+        cases.append({"in": [[1, rng.choice([0, 0, 1, 2]), rng.choice([0, 0, 1, 2, 3]), rng.choice([0, 0, 0, 1])], users, []], "kind": "sqlite-random"})
     for w in WITNESSES:
         cases.append({"in": w, "kind": "refutation-witness"})
     return cases
@@ -125,7 +158,7 @@ def gen_cases(rng, tier):
 
 def nontrivial(c):
     cfg, users, faults = c["in"]
-    return any(o in (O_WRITE, O_FKWRITE, O_ISO, O_AUTOC) for u in users for o in u)
+    return cfg[3] != 0 or any(isinstance(o, list) or o in (O_WRITE, O_FKWRITE, O_ISO, O_AUTOC, O_NBEGIN) for u in users for o in u)
 
 
 # ---------------------------------------------------------------------------------------------------
@@ -180,22 +213,42 @@ def _pool_kwargs(kind):
     return dict(poolclass={1: sapool.NullPool, 2: sapool.StaticPool, 3: sapool.SingletonThreadPool}[kind])
 
 
-def _drive(eng, users, observe, log, writes):
-    """runs the users against the engine; returns the per-checkout observations"""
+def _drive(eng, pool, engine_iso, users, observe, log, writes):
+    """runs the users against the engine; the state of the DBAPI connection is observed by a pool 'checkout'
+    listener, i.e. as the pool hands it out, before the engine applies any option"""
     import gc
 
-    from sqlalchemy import exc
+    from sqlalchemy import event, exc
 
+    seen = []
+
+    def on_checkout(dbapi_con, rec, fairy):
+        seen.append(observe(dbapi_con))
+
+    event.listen(pool, "checkout", on_checkout)
+    if engine_iso:
+        eng = eng.execution_options(isolation_level=writes[3] if engine_iso == 1 else "AUTOCOMMIT")
     out = []
     for ops in users + [[]]:
-        conn = eng.connect()
+        del seen[:]
         del log[:]
-        rec = [observe(conn)]
+        conn = eng.connect()
+        rec = [seen[0]]
         codes = []
+        nested = []
         for op in ops:
             code = 0
             try:
-                if op == O_WRITE:
+                if isinstance(op, list):
+                    kw = {}
+                    if op[1]:
+                        kw["isolation_level"] = writes[3] if op[1] == 1 else "AUTOCOMMIT"
+                    if op[2]:
+                        kw["logging_token"] = "tok"
+                    if op[3]:
+                        kw["stream_results"] = False
+                    conn.execution_options(**kw)
+                elif op == O_WRITE:
                     conn.exec_driver_sql(writes[0])
                 elif op == O_FKWRITE:
                     conn.exec_driver_sql(writes[1])
@@ -211,9 +264,21 @@ def _drive(eng, users, observe, log, writes):
                     conn.execution_options(isolation_level="AUTOCOMMIT")
                 elif op == O_BEGIN:
                     conn.begin()
+                elif op == O_NBEGIN:
+                    nested.append(conn.begin_nested())
+                elif op in (O_NCOMMIT, O_NROLLBACK, O_NCLOSE):
+                    if not nested:
+                        code = 9
+                    elif op == O_NCOMMIT:
+                        nested[-1].commit()
+                    elif op == O_NROLLBACK:
+                        nested[-1].rollback()
+                    else:
+                        nested[-1].close()
                 elif op == O_CLOSE:
                     conn.close()
                 elif op == O_DROP:
+                    del nested[:]
                     conn = None
                     gc.collect(0)
                 elif op == O_INVALIDATE:
@@ -228,6 +293,7 @@ def _drive(eng, users, observe, log, writes):
             codes.append(code)
             if conn is None or conn.closed:
                 break
+        del nested[:]
         conn = None
         gc.collect(0)
         rec.append(codes)
@@ -247,7 +313,7 @@ def _impl_fake(cfg, users, faults):
 
     env = _setup()
     FakeError = env["FakeError"]
-    backend, reset, kind = cfg
+    backend, reset, kind, engine_iso = cfg
     st = {"faults": list(faults)}
     log = []
 
@@ -264,11 +330,27 @@ def _impl_fake(cfg, users, faults):
             self.conn = conn
 
         def execute(self, stmt, params=None):
+            c = self.conn
             if stmt == "fail":
                 raise FakeError("statement failed")
-            if stmt == "write" and not self.conn.autoc:
-                self.conn.in_txn = True
-                self.conn.dirty = True
+            if stmt == "write":
+                if not c.autoc:
+                    c.in_txn = True
+                    c.dirty = True
+            elif stmt.startswith("SAVEPOINT "):
+                log.append(4)
+                c.sp.append((stmt[10:], c.dirty))
+            elif stmt.startswith("ROLLBACK TO SAVEPOINT "):
+                log.append(5)
+                k = [n for n, _ in c.sp].index(stmt[22:])
+                c.dirty = c.sp[k][1]
+                del c.sp[k + 1 :]
+            elif stmt.startswith("RELEASE SAVEPOINT "):
+                log.append(6)
+                k = [n for n, _ in c.sp].index(stmt[18:])
+                del c.sp[k:]
+            else:
+                raise AssertionError("unexpected statement %r" % stmt)
 
         def close(self):
             pass
@@ -282,6 +364,7 @@ def _impl_fake(cfg, users, faults):
         def __init__(self):
             self.in_txn = self.dirty = self.autoc = self.closed = False
             self.iso = 0
+            self.sp = []
             self.cid = Conn.n
             Conn.n += 1
 
@@ -293,12 +376,14 @@ def _impl_fake(cfg, users, faults):
             if fault() == 1:
                 raise FakeError("commit failed")
             self.in_txn = self.dirty = False
+            del self.sp[:]
 
         def rollback(self):
             log.append(2)
             if fault() == 1:
                 raise FakeError("rollback failed")
             self.in_txn = self.dirty = False
+            del self.sp[:]
 
         def close(self):
             self.closed = True
@@ -322,14 +407,13 @@ def _impl_fake(cfg, users, faults):
         p = {1: sapool.NullPool, 2: sapool.StaticPool, 3: sapool.SingletonThreadPool}[kind](Conn, **kw)
     eng = Engine(p, dialect, make_url("fake://"))
 
-    def observe(conn):
-        d = conn.connection.dbapi_connection
+    def observe(d):
         return [d.cid, int(d.in_txn), int(d.dirty), d.iso, int(d.autoc)]
 
     old_hook = sys.unraisablehook
     sys.unraisablehook = lambda u: None
     try:
-        return _drive(eng, users, observe, log, ["write", "write", "fail", "SERIALIZABLE"])
+        return _drive(eng, p, engine_iso, users, observe, log, ["write", "write", "fail", "SERIALIZABLE"])
     finally:
         sys.unraisablehook = old_hook
         eng = None
@@ -345,7 +429,7 @@ def _impl_sqlite(cfg, users):
     from sqlalchemy import create_engine, event
 
     env = _setup()
-    backend, reset, kind = cfg
+    backend, reset, kind, engine_iso = cfg
     env["n"][0] += 1
     path = os.path.join(env["tmp"], "c%d_%d.db" % (os.getpid(), env["n"][0]))
     raw0 = sqlite3.connect(path)
@@ -358,17 +442,23 @@ def _impl_sqlite(cfg, users):
         "sqlite:///" + path, pool_reset_on_return={0: "rollback", 1: "commit", 2: None}[reset], **_pool_kwargs(kind)
     )
 
+    # the documented pysqlite workaround for SAVEPOINT: no implicit BEGIN by the driver, BEGIN emitted by SQLAlchemy
     @event.listens_for(eng, "connect")
     def _on_connect(dbapi_con, rec):
+        dbapi_con.isolation_level = None
         dbapi_con.execute("PRAGMA foreign_keys=ON")
+
+    @event.listens_for(eng, "begin")
+    def _on_begin(conn):
+        if not conn.connection.dbapi_connection.in_transaction:
+            conn.exec_driver_sql("BEGIN")
 
     seen = []  # keeps the raw connections alive so that identities are not reused
 
     def count(c):
         return c.execute("select (select count(*) from t) + (select count(*) from c)").fetchone()[0]
 
-    def observe(conn):
-        raw = conn.connection.dbapi_connection
+    def observe(raw):
         if not any(r is raw for r in seen):
             seen.append(raw)
         cid = [i for i, r in enumerate(seen) if r is raw][0]
@@ -378,13 +468,15 @@ def _impl_sqlite(cfg, users):
         finally:
             other.close()
         iso = raw.execute("PRAGMA read_uncommitted").fetchone()[0]
-        return [cid, int(raw.in_transaction), dirty, iso, int(raw.isolation_level is None)]
+        return [cid, int(raw.in_transaction), dirty, iso, 0]
 
     old_hook = sys.unraisablehook
     sys.unraisablehook = lambda u: None
     try:
         return _drive(
             eng,
+            eng.pool,
+            engine_iso,
             users,
             observe,
             [],
@@ -414,7 +506,7 @@ def oracle(c, obs):
     """the property itself: with reset_on_return enabled, every checkout after the first user's finds the
     connection without open transaction, without uncommitted writes, with default isolation / autocommit"""
     cfg, users, faults = c["in"]
-    backend, reset, kind = cfg
+    backend, reset, kind, engine_iso = cfg
     if reset == 2:
         return None
     for k in range(1, len(obs)):
